@@ -18,8 +18,8 @@ Ties (all compared inside Coq by vm_compute, model = coq/theories/Util.v):
     sets; the model is evaluated on the kernel slices of the EXPORTED json and must reproduce pt_active of every
     kernel slice, the multiset of exported 'PT Active' counters and the csv the same run wrote.
   * off-grid (supporting, ORACLE ONLY - no Coq comparison): 560:800 / 1000:1100 MHz style frequencies and decimal
-    times; pt_active / Percent up to relative 1e-12, csv sums up to relative 1e-9, Ideal_Cyc +-1 per summand
-    (int(ideal/factor) truncates a double quotient), row order not checked.
+    times; pt_active / Percent up to relative 1e-12, csv sums up to relative 1e-9, Ideal_Cyc exact, row order not
+    checked.
 Oracle (independent of the model, exact Fractions, from the generator's ground truth): per kernel slice pt_active =
 min(1, (cycles/core)/dur) iff listed with non-zero cycles, counter pair (100*pt_active at ts, 0 at ts+dur), none
 otherwise; csv: every slice counted once in its category (else 'other'), Total = sum of the category rows in all
@@ -613,7 +613,9 @@ def oracle_csv(ks, rows, truth, core, tolerant=False):
         return a == b if not tolerant else close(a, b, F(1, 10 ** 9))
 
     def same_c(a, b, n=1):
-        return a == b if not tolerant else abs(a - b) <= n
+        # cycle counts are integers "as read from the table": exact also off the grid (until /repo fix "C11b"
+        # int(ideal/factor) truncated a double quotient and lost one unit per summand at 560/800/1100 MHz)
+        return a == b
     if not ks:
         if rows:
             fails.append({"expected": "no csv", "observed": rows[:3], "signature": {"kind": "csv_without_kernels"}})
